@@ -16,6 +16,7 @@
   lexicographic order of `List Char`.  No Mathlib.
 -/
 import Kapture.Base.Dict
+import Kapture.Gen.OsfmCamera
 
 namespace Kapture.C15
 open Kapture
@@ -54,17 +55,27 @@ def largest (a b : Rat) : Rat := if a < b then b else a
 /-- Python `int(x)` / numpy `astype(int)` on a float: truncation toward zero (export_opensfm.py:174-175, 279) -/
 def truncInt (x : Rat) : Int := Int.tdiv x.num x.den
 
-/-- `'focal': camera_params[2] / largest_side_in_pixels` (export_opensfm.py:171,177) -/
-def exportFocal (f w h : Rat) : Rat := f / largest w h
+/-- the name of a camera type in `kapture.CameraType` -/
+def typeName : CamType → String
+  | .simplePinhole => "SIMPLE_PINHOLE"
+  | .simpleRadial => "SIMPLE_RADIAL"
+  | .radial => "RADIAL"
+  | .other => "OTHER"
 
-/-- `opensfm_camera['focal'] * float(max(width, height))` (import_opensfm.py:112,117) -/
-def importFocal (focal : Rat) (width height : Int) : Rat := focal * ((max width height : Int) : Rat)
+/-- `'focal': camera_params[2] / largest_side_in_pixels` (export_opensfm.py:171,177): the expression is GENERATED from the
+  source (Gen/OsfmCamera.lean), applied to camera_params = [w, h, f, ...] and Python's max -/
+def exportFocal (f w h : Rat) : Rat := Gen.OsfmCamera.exportFocal largest (fun i => [w, h, f].getD i 0)
 
-/-- `camera_type in [SIMPLE_RADIAL, RADIAL]` (export_opensfm.py:183) -/
-def hasK1 (t : CamType) : Bool := t == .simpleRadial || t == .radial
+/-- `opensfm_camera['focal'] * float(max(width, height))` (import_opensfm.py:112,117): the third entry of the GENERATED
+  parameter list of import_camera -/
+def importFocal (focal : Rat) (width height : Int) : Rat :=
+  (Gen.OsfmCamera.importParams largest (width : Rat) (height : Rat) focal 0 0).getD 2 0
 
-/-- `camera_type == RADIAL` (export_opensfm.py:186) -/
-def hasK2 (t : CamType) : Bool := t == .radial
+/-- `camera_type in [SIMPLE_RADIAL, RADIAL]` (export_opensfm.py:183), the list being generated -/
+def hasK1 (t : CamType) : Bool := Gen.OsfmCamera.k1Types.contains (typeName t)
+
+/-- `camera_type == RADIAL` (export_opensfm.py:186), generated -/
+def hasK2 (t : CamType) : Bool := Gen.OsfmCamera.k2Types.contains (typeName t)
 
 /-- export_opensfm_camera (export_opensfm.py:134-189) -/
 def exportCamera (c : Camera) : Except String OsfmCamera :=
